@@ -94,19 +94,6 @@ theorem removeMark_fault (n : Nat) (w : Wid) (j : Nat) (P : PStore) (V : PVol) :
         · simp at hact
         · simp at hact; exact hact.2.symm
 
-theorem remove1_fault (n : Nat) (w : Wid) (j : Nat) (P : PStore) (V : PVol) :
-    (opRemove1 n w).run (some j) P V = (opRemove1 n w).run none P V ∨
-    ((opRemove1 n w).run (some j) P V).ok = false ∧ ((opRemove1 n w).run (some j) P V).P = P ∧
-      ((opRemove1 n w).run (some j) P V).V = V := by
-  rcases run_single_fault n _ (opRemove1 n w) rfl j P V with h | ⟨h1, h2, h3⟩
-  · exact Or.inl h.1
-  · refine Or.inr ⟨h1, h2, ?_⟩
-    rcases h3 with h3 | ⟨P', V', hact, h3⟩
-    · simpa [opRemove1] using h3
-    · rw [h3]
-      simp only [opRemove1] at hact ⊢
-      simp at hact; exact hact.2.symm
-
 theorem fastForward_fault (n : Nat) (bm : BlockMeta) (j : Nat) (P : PStore) (V : PVol) :
     (opFastForward n bm).run (some j) P V = (opFastForward n bm).run none P V ∨
     ((opFastForward n bm).run (some j) P V).ok = false ∧ ((opFastForward n bm).run (some j) P V).P = P ∧
@@ -179,13 +166,6 @@ theorem removeMark_fail_exact (n : Nat) (w : Wid) (f : Option Nat) (P : PStore) 
   · split at ha
     · simp at ha
     · simp at ha; exact ha.2.symm
-
-theorem remove1_fail_exact (n : Nat) (w : Wid) (f : Option Nat) (P : PStore) (V : PVol)
-    (h : ((opRemove1 n w).run f P V).ok = false) :
-    ((opRemove1 n w).run f P V).P = P ∧ ((opRemove1 n w).run f P V).V = V := by
-  refine run_single_fail_exact n _ (opRemove1 n w) rfl (fun _ _ _ => rfl) ?_ f P V h
-  intro P V P' V' ha
-  simp at ha; exact ha.2.symm
 
 theorem fastForward_fail_exact (n : Nat) (bm : BlockMeta) (f : Option Nat) (P : PStore) (V : PVol)
     (h : ((opFastForward n bm).run f P V).ok = false) :
@@ -332,12 +312,12 @@ theorem keyCoh_reload (env : Env) (P : PStore) (V V' : PVol) (w : Wid) (r : KsRe
       exact hc.2 w' r' c hr' hc'
 
 /-- the final removal step under a fault at any call index -/
-theorem removeFinal_fault_coh (env : Env) (nA nB : Nat) (w : Wid) (j : Nat) (P : PStore) (V : PVol)
+theorem removeFinal_fault_coh (env : Env) (nI nA nB : Nat) (w : Wid) (j : Nat) (P : PStore) (V : PVol)
     (hc : KeyCoh env P V)
-    (h : ((opRemoveFinal nA nB w).run (some j) P V).ok = false) :
-    ((opRemoveFinal nA nB w).run (some j) P V).P = P ∧
-    KeyCoh env P ((opRemoveFinal nA nB w).run (some j) P V).V ∧
-    ((opRemoveFinal nA nB w).run (some j) P V).V.led = V.led := by
+    (h : ((opRemoveFinal nI nA nB w).run (some j) P V).ok = false) :
+    ((opRemoveFinal nI nA nB w).run (some j) P V).P = P ∧
+    KeyCoh env P ((opRemoveFinal nI nA nB w).run (some j) P V).V ∧
+    ((opRemoveFinal nI nA nB w).run (some j) P V).V.led = V.led := by
   refine ⟨run_fail_store _ _ _ _ h, ?_⟩
   unfold Op.run at h ⊢
   simp only [opRemoveFinal, runPhases] at h ⊢
